@@ -23,6 +23,8 @@ pub struct C09 {
     /// emulated lock contention: up to this many times the explorer arms a caller to be polled
     /// from inside another caller's critical section (see trv_core::nest)
     pub nested: usize,
+    /// explorer time grid (ms): 10, or 1010 for the seconds-range configuration
+    pub grid: u64,
 }
 
 pub struct X {
@@ -65,6 +67,9 @@ impl Scenario for C09 {
     }
     fn callers(&self) -> usize {
         self.callers
+    }
+    fn grid_ms(&self) -> u64 {
+        self.grid
     }
     fn init(&self, w: &mut World) -> X {
         let nest = if self.nested > 0 { Some(Nest::new()) } else { None };
